@@ -6824,7 +6824,8 @@ func (e *ExpressionEmitter) emitMath(mathExpr ir.ExprMath) (uint32, error) {
 	case ir.MathFloor:
 		glslInst = GLSLstd450Floor
 	case ir.MathRound:
-		glslInst = GLSLstd450Round
+		// WGSL round() rounds half to even; GLSL.std.450 Round leaves the tie direction to the implementation
+		glslInst = GLSLstd450RoundEven
 	case ir.MathFract:
 		glslInst = GLSLstd450Fract
 	case ir.MathTrunc:
